@@ -253,7 +253,8 @@ Record grp_req := mkgr {
   gr_target : nat;                                 (* the group whose route the request is sent to *)
   gr_rsa : list ((N * bytes) * option bytes);      (* (private key id, secret text) |-> DecryptBase64 *)
   gr_fp : bytes; gr_enckey : N;                    (* what the client did: announced fingerprint, public key used *)
-  gr_sig : sig_case                                (* request, remaining tables, description, observation *)
+  gr_sig : sig_case;                               (* request, remaining tables, description, observation *)
+  gr_registered : list bytes                       (* methods the target group's route is registered with *)
 }.
 
 Record grp_case := mkgc {
@@ -266,8 +267,8 @@ Definition grp_rsa (c : grp_req) (k : N) (s : bytes) : option bytes :=
 
 Definition grp_gate (groups : list group) (c : grp_req) (now : Z) : option sout :=
   let s := gr_sig c in
-  engine_gate (grp_rsa c) (opt_bytes_tab (sc_b64 s)) (mac_of s) (sha_of s) (fun _ => sc_url s) (decrypt_body (fun _ _ => sc_decbody s))
-    groups (gr_target c) now (sc_req s).
+  route_dispatch (gr_registered c) (sc_req s) (engine_gate (grp_rsa c) (opt_bytes_tab (sc_b64 s)) (mac_of s) (sha_of s) (fun _ => sc_url s) (decrypt_body (fun _ _ => sc_decbody s))
+    groups (gr_target c) now (sc_req s)).
 
 Definition grp_model_ok (c : grp_case) : bool :=
   forallb (fun rq =>
@@ -288,6 +289,8 @@ Definition grp_spec_ok (c : grp_case) : bool :=
     match nth_error (gc_groups c) (gr_target rq) with
     | None => false
     | Some g =>
+        if negb (existsb (bytes_eqb (q_method (sc_q s))) (gr_registered rq)) then negb (sc_ran s)   (* not this route's method: the protected handler never runs *)
+        else
         let q := sc_q s in
         let q' := mkq (q_decrypts q && configured_for g (gr_fp rq) (gr_enckey rq)) (q_key q) (q_ts_text q) (q_ts q)
                       (q_sig q) (q_method q) (q_path q) (q_query q) (q_body q) in
@@ -438,6 +441,24 @@ Fixpoint rpcf_spec_rows (strict : bool) (memo : list (N * N)) (ops : list rop) :
 
 Definition rpcf_spec_ok (c : rpcf_case) : bool := rpcf_spec_rows (rf_strict c) [] (rf_ops c).
 
+(* ------------------------------------------------------------------ RPC through rpc.NewServer(ServerConfig) *)
+Record rpcn_case := mkrn { rn_auth : bool; rn_strict : bool; rn_steps : list rstep }.
+
+Fixpoint rpcn_rows (auth strict : bool) (cache : list (N * N)) (steps : list rstep) : bool :=
+  match steps with
+  | [] => true
+  | s :: r =>
+      let '(cache', code) := server_config_gate auth strict cache (store_of s) (rs_md s) in
+      (code =? rs_code s) && rpcn_rows auth strict cache' r
+  end.
+
+Definition rpcn_model_ok (c : rpcn_case) : bool := rpcn_rows (rn_auth c) (rn_strict c) [] (rn_steps c).
+
+(* Spec: without auth every call is served; with auth the decision table, strict = StrictControl *)
+Definition rpcn_spec_ok (c : rpcn_case) : bool :=
+  if rn_auth c then rpc_spec_rows (rn_strict c) [] (rn_steps c)
+  else forallb (fun s => rs_code s =? 0) (rn_steps c).
+
 (* ------------------------------------------------------------------ dispatch *)
 Inductive case :=
 | CParser (c : parser_case)
@@ -447,7 +468,8 @@ Inductive case :=
 | CGrp (c : grp_case)
 | CRpcI (c : rpci_case)
 | CEJwt (c : ejwt_case)
-| CRpcF (c : rpcf_case).
+| CRpcF (c : rpcf_case)
+| CRpcN (c : rpcn_case).
 
 Definition model_ok (c : case) : bool :=
   match c with
@@ -459,6 +481,7 @@ Definition model_ok (c : case) : bool :=
   | CRpcI c => rpci_model_ok c
   | CEJwt c => ejwt_model_ok c
   | CRpcF c => rpcf_model_ok c
+  | CRpcN c => rpcn_model_ok c
   end.
 
 Definition spec_ok (c : case) : bool :=
@@ -471,4 +494,5 @@ Definition spec_ok (c : case) : bool :=
   | CRpcI c => rpci_spec_ok c
   | CEJwt c => ejwt_spec_ok c
   | CRpcF c => rpcf_spec_ok c
+  | CRpcN c => rpcn_spec_ok c
   end.
